@@ -254,6 +254,98 @@ func runC04(w *World, r *Report, tier string) {
 	r.Floor("O3", 2)
 	_ = nStores
 
+	// ---- O3 (continued): StartTLS reports success only when the connection has really been upgraded — the flag is
+	// set, and what the transport reads from and writes to from now on is the TLS connection
+	{
+		stls := w.Func("xmpp.(*XMPPTransport).StartTLS")
+		fRW := w.Field("xmpp.XMPPTransport.readWriter")
+		fDec := w.Field("xmpp.XMPPTransport.decoder")
+		bad := ""
+		nOK := 0
+		err := walkPaths(entryLoc(stls), nil, nil, 50000, func(path []ssa.Instruction, end pathEnd) {
+			ret, ok := path[len(path)-1].(*ssa.Return)
+			if !ok || end == endCycle || len(ret.Results) != 1 {
+				return
+			}
+			res := rres(path, ret)[0]
+			if !isNilConst(res) {
+				if _, isCall := res.(*ssa.Call); isCall {
+					if pathAsserts(path, func(c ssa.Value, truth bool) bool { return assertsNonNil(c, truth, res) }) {
+						return
+					}
+				} else if _, isMI := res.(*ssa.MakeInterface); isMI {
+					return
+				} else if pathAsserts(path, func(c ssa.Value, truth bool) bool { return assertsNonNil(c, truth, res) }) {
+					return
+				}
+			}
+			nOK++
+			// the TLS connection of this path
+			var tlsConn ssa.Value
+			flagSet, rwOK, decOK := false, false, false
+			var rwVal ssa.Value
+			forPath(path, func(i int, in ssa.Instruction) {
+				if c, ok := in.(*ssa.Call); ok && w.callKey(c) == "crypto/tls.Client" {
+					tlsConn = c
+				}
+				st, ok := in.(*ssa.Store)
+				if !ok {
+					return
+				}
+				fa, ok := st.Addr.(*ssa.FieldAddr)
+				if !ok {
+					return
+				}
+				val := rvI(st.Val, i)
+				switch fieldOfAddr(fa) {
+				case fIsSecure:
+					if b, isC := boolConst(val); isC {
+						flagSet = b
+					}
+				case fRW:
+					// newStreamLogger(tlsConn, …) or the TLS connection itself
+					v := val
+					if mi, ok := v.(*ssa.MakeInterface); ok {
+						v = mi.X
+					}
+					if c, ok := v.(*ssa.Call); ok && len(c.Call.Args) > 0 {
+						a0 := c.Call.Args[0]
+						for k := 0; k < 6; k++ {
+							a0 = rvI(a0, i)
+							if mi, ok := a0.(*ssa.MakeInterface); ok {
+								a0 = mi.X
+							} else if ci, ok := a0.(*ssa.ChangeInterface); ok {
+								a0 = ci.X
+							} else {
+								break
+							}
+						}
+						rwOK = tlsConn != nil && a0 == tlsConn
+					} else {
+						rwOK = tlsConn != nil && v == tlsConn
+					}
+					rwVal = st.Val
+				case fDec:
+					// a decoder over (a buffered reader over) the new readWriter
+					decOK = rwVal != nil && strings.Contains(w.nfOn(val, path), "readWriter")
+				}
+			})
+			switch {
+			case !flagSet:
+				bad = "StartTLS returns nil at " + w.ipos(ret) + " without the secure flag set: a failed handshake or verification is reported as success"
+			case !rwOK:
+				bad = "after a successful upgrade the transport still writes to the connection beneath TLS: what follows (the restarted stream, <auth/>) goes out in clear text"
+			case !decOK:
+				bad = "after a successful upgrade the transport still reads from the connection beneath TLS"
+			}
+		})
+		if err != nil {
+			r.Undecided("O3", "xmpp.(*XMPPTransport).StartTLS#success", w.pos(stls.Pos()), err.Error())
+		} else {
+			r.Check(bad == "" && nOK > 0, "O3", "xmpp.(*XMPPTransport).StartTLS#success", w.pos(stls.Pos()), bad, fmt.Sprintf("%d success path(s): flag set, reader and writer rebuilt over the TLS connection", nOK))
+		}
+	}
+
 	// ---- O4 typestate of conn
 	isFlagStore := func(in ssa.Instruction) bool {
 		st, ok := in.(*ssa.Store)
